@@ -8,6 +8,7 @@ import (
 	"context"
 	"errors"
 	"fmt"
+	"reflect"
 	"regexp"
 	"runtime"
 	"sort"
@@ -209,7 +210,29 @@ func NewEnv() (*env.Env, *Recorder) {
 	e := ank.NewCoreEnv()
 	r := &Recorder{}
 	r.Bind(e)
+	e.SetExternalLookup(hostLookup{})
+	// nil values of script-convention function types (what make([]F, n)[i] yields for a type F
+	// made from a script function): every call of them fails
+	var nil1 func(context.Context, reflect.Value) (reflect.Value, reflect.Value)
+	var nil2 func(context.Context, reflect.Value, reflect.Value) (reflect.Value, reflect.Value)
+	e.Define("hnil1", nil1)
+	e.Define("hnil2", nil2)
 	return e, r
+}
+
+// hostLookup answers the one name xl (int64 99) for the outermost scope: a name that is in no
+// scope's table, so every script binding of it is nearer and no assignment reaches it.
+type hostLookup struct{}
+
+func (hostLookup) Get(name string) (reflect.Value, error) {
+	if name == "xl" {
+		return reflect.ValueOf(int64(99)), nil
+	}
+	return reflect.Value{}, fmt.Errorf("undefined symbol '%s'", name)
+}
+
+func (hostLookup) Type(name string) (reflect.Type, error) {
+	return nil, fmt.Errorf("undefined type '%s'", name)
 }
 
 func finish(o ank.Out, rec *Recorder, ctx context.Context) Real {
